@@ -209,6 +209,29 @@ def cd_write_programs(tier, rng):
         for a in avars:
             for b in CD_B:
                 out.append((f"cd-loop:{k}", tmpl.replace("{A}", a).replace("{B}", b)))
+    # case statements of three and four items: every combination of terminators (;; ;& ;;&) x which item changes the
+    # directory and which later item writes x which patterns match (x matches, y does not, * always): what bash runs
+    # after a fall-through or a continued test is decided by the terminators AND by the patterns of the items between
+    pats3 = [("x", "y", "*"), ("x", "x", "x"), ("x", "y", "x"), ("y", "x", "*"), ("*", "*", "*"), ("x", "*", "y"), ("x", "y", "y")]
+    if tier != "quick":
+        pats3 = list(itertools.product(["x", "y", "*"], repeat=3))
+    for terms in itertools.product([";;", ";&", ";;&"], repeat=2):
+        for (ia, ib) in ((0, 1), (0, 2), (1, 2)):
+            for pats in pats3:
+                for b in CD_B[:2]:
+                    body = ["true", "true", "true"]
+                    body[ia], body[ib] = "cd sub", b
+                    items = [f"{pats[i]}) {body[i]} {(list(terms) + [';;'])[i]}" for i in range(3)]
+                    out.append(("cd-case3", "case x in " + " ".join(items) + " esac"))
+    for terms in itertools.product([";;", ";&", ";;&"], repeat=3):
+        for pats in (("x", "y", "z", "*"), ("x", "y", "x", "*"), ("x", "x", "y", "x"), ("y", "x", "y", "*")):
+            for (ia, ib) in ((0, 3), (0, 2), (1, 3)):
+                body = ["true"] * 4
+                body[ia], body[ib] = "cd sub", CD_B[0]
+                items = [f"{pats[i]}) {body[i]} {(list(terms) + [';;'])[i]}" for i in range(4)]
+                if tier == "quick" and (ia + ib + len("".join(terms))) % 2:
+                    continue
+                out.append(("cd-case4", "case x in " + " ".join(items) + " esac"))
     return out
 
 
